@@ -154,7 +154,10 @@ CHECKS = {'C01': {'level': 'exploration',
                  '| since round 5: offset moves exactly at / next to the 2^7, 2^14, 2^21, 2^28 length boundaries of the variable-length delta (in '
                  'the exhaustive alphabet and the random generator); every view is read a second time with the SAME reader after it ranged over '
                  'blocks (Seek+Next, Seek+Rewind+Next, Rewind inside a Range callback) | since round 6: the commits of a log carry IDs that DEcrease '
-                 'from commit to commit (every commit is for another block; IDs only grow per block)',
+                 'from commit to commit (every commit is for another block; IDs only grow per block) | every decode (Buffer.ReadFrom, '
+                 'Commit.ReadFrom, commit.Open(...).Range) reads from one of four legal io.Readers chosen by the size of the encoding and the '
+                 'variant: all at once, one byte per Read, pieces of 1,2,3,5,8,13 bytes, or half of what is asked with the last data arriving '
+                 'together with io.EOF - a decoder that assumes a Read fills its buffer fails the round trip',
          'assumptions': ['offsets < 2^31 and byte strings <= 65535 bytes (format limits)',
                          'merge operations always carry a value (as every caller in kelindar/column does)'],
          'tests': [{'run': '^TestC05Exhaustive$', 'timeout': {'quick': 600, 'thorough': 3000}, 'env': {'GOMAXPROCS': 1}},
